@@ -95,6 +95,8 @@ func c06setupP(id, other string, maxLen int, pending bool) (cur, oth *tssItem, p
 
 var c06clockRegistered bool
 
+func coretimebaseRegister(c timebase.SystemClock) { coretimebase.RegisterClock(c) }
+
 func c06clock() {
 	if !c06clockRegistered {
 		coretimebase.RegisterClock(symClock{})
